@@ -21,6 +21,7 @@ CONFIGS = [(100, 1, -25, 100, 120, 1, 0), (100, 1, -25, 150, 60, 1, 0), (100, 1,
            (100, 1, -25, 100, 120, 1, 1), (100, 1, -25, 100, 120, 0, 0)]
 
 
+@core.guarded(lambda cfg, maxd, rpos, qpos, shift, peaks, rev, *a: dict(config=list(cfg), maxDistance=maxd, reference=rpos, query=qpos, shift=shift, peaks=peaks, reverse=rev))
 def check_case(cfg, maxd, rpos, qpos, shift, peaks, rev, acc, aligner=None, rec=None):
     if aligner is None:
         aligner = make_aligner(maxd, *cfg)
